@@ -172,7 +172,7 @@ def settlePass (st : St) : St × Bool := Id.run do
   for w in List.range st.nW do
     -- held-back drop notices (the goroutines Reader.Close spawned)
     for r in (List.range 8) do
-      for _ in List.range ((s.sys.comp w).w.drops r) do
+      for _ in List.range (((s.sys.comp w).w.drops r).length) do
         s := { s with sys := (step s.rule s.topo s.sys (.prim w (.w (.deliverDrop r)))).1 }
         moved := true
   let (s2, d) := relayAll s 64
